@@ -155,6 +155,12 @@ func (s *Spec) TestSource() string {
 		b.WriteString("\t\"cw/w\"\n")
 	default:
 		b.WriteString("\tgen \"cw/w/generated\"\n")
+		for _, m := range s.methods(false) {
+			if m.TargetFirst {
+				b.WriteString("\t\"cw/w\"\n")
+				break
+			}
+		}
 		if hasTwin {
 			b.WriteString("\ttwin \"cw/w/twin\"\n")
 		}
@@ -233,6 +239,10 @@ func (s *Spec) TestSource() string {
 			fn, tw = "gen."+m.Name, "twin.Twin"+m.Name
 		default:
 			fn, tw = "w."+m.Name, "w.Twin"+m.Name
+		}
+		if m.TargetFirst {
+			// the harness calls (source, target)
+			fn = fmt.Sprintf("func(source %s, target *w.%s) { %s(target, source) }", strings.Replace(m.In, "*", "*w.", 1), m.Out, fn)
 		}
 		if hasTwin {
 			fmt.Fprintf(&b, "\t\t{Name: %q, Fn: %s, Twin: %s, WrapOff: %v},\n", m.Name, fn, tw, s.MethodWrapOff[m.Name])
